@@ -73,7 +73,13 @@ ASSUMPTIONS = [
 RULE = RULE + " || " + c07_seesaw.RULE_SEESAW + (
     " || npa/seesaw-point: per embedded NPA problem one seeded feasible point of the see-saw programs (assemblage in dimension 2 with tau singular for odd seeds, "
     "random non-projective Bob POVMs), dilated numerically to commuting projectors exactly as in the Lean proof, moments fed to the captured constraints (1e-7)"
-    " || classical: every case is also evaluated by the mirror WITH the multiprocessing branch (c07_classical_value_code); from_bcs_game with reps = 2 and the empty-list rejection")
+    " || classical: every case is also evaluated by the mirror WITH the multiprocessing branch (c07_classical_value_code); from_bcs_game with reps = 2 and the empty-list rejection"
+    " || classical/pool-forced: games in which BOTH players have more than 1000 deterministic strategies (multiprocessing branch) and the number n of "
+    "strategies of the enumerated player is not a multiple of a block size (3^7 = 2187 with Bob and with Alice enumerated, unequal answer alphabets (4,3,6,7), "
+    "9^4 = 6561 as the 2-fold repetition of a (3,3,2,2) game, seeded: 5^5, 6^4, 7^4), with a UNIQUE optimal strategy of the enumerated player at a chosen place of the "
+    "enumeration order: last, first, middle, seeded block-boundary places (b-1, b, n-b, n - n mod b, ... for b in 16..1024; 999..1001) and seeded uniform places; "
+    "construction and uniqueness argument in forced_game; the oracle is the one-sided maximum classicalValueFixed (= maxDetValue, classicalValueFixed_eq_maxDet) "
+    "and the harness re-evaluates the forced strategy exactly and demands that it attains that maximum")
 ASSUMPTIONS = ASSUMPTIONS + c07_seesaw.ASSUMPTIONS_SEESAW
 
 TOL_IP = 2e-5
@@ -190,7 +196,9 @@ def xor_game(rng, shape):
 # (a) classical value against the specification
 
 
-def check_classical(ctx, prob, pred, reps, kind, tag="rand"):
+def check_classical(ctx, prob, pred, reps, kind, tag="rand", pre=None):
+    """`pre`: answers of the Lean driver to the three classical-value requests for exactly this game, computed beforehand (pool_forced
+    computes them on several driver processes at once); None = ask now"""
     from toqito.nonlocal_games.nonlocal_game import NonlocalGame
 
     prob = np.asarray(prob, dtype=float)
@@ -216,14 +224,17 @@ def check_classical(ctx, prob, pred, reps, kind, tag="rand"):
                       {"function": "NonlocalGame.classical_value", "args": desc, "impl": repr(e)[:300], "theorem": "classicalValueFixed_eq_maxDet"})
         return
     lean = ctx.lean()
-    m_cur = lean.ask("c07_classical_value", args)
-    m_fix = lean.ask("c07_classical_value_fixed", args)
+    if pre is not None and pre.get("args") != args:
+        raise InfraError("check_classical: precomputed oracle answers belong to another game")
+    ask = (lambda op, a: pre[op]) if pre is not None else lean.ask
+    m_cur = ask("c07_classical_value", args)
+    m_fix = ask("c07_classical_value_fixed", args)
     if "reject" in m_cur or "reject" in m_fix:
         raise InfraError(f"driver rejected a valid game: {m_cur} {shape}")
     spec = _frac(m_fix["value"])
     # the mirror WITH the branch `if num_iterations > 1000: pool else: loop` (Model/GamesExtra.lean; proved equal to the loop-only
     # mirror and to the specification: classicalValueCode_eq_maxDet, pool_branch_eq_loop)
-    m_code = lean.ask("c07_classical_value_code", args)
+    m_code = ask("c07_classical_value_code", args)
     if "reject" in m_code or _frac(m_code["value"]) != spec:
         raise InfraError(f"Lean: classicalValueCode {m_code} != classicalValueFixed {spec} (proved equal) on {desc}")
     ctx.count("classical/code-mirror-branch=" + ("pool" if it_fix > 1000 else "loop"))
@@ -268,6 +279,194 @@ def check_classical(ctx, prob, pred, reps, kind, tag="rand"):
              "mirror_current_code": str(cur), "enum_complete": bool(m_cur["enum_complete"]),
              "impl_equals_current_mirror": bool(implq is not None and abs(implq - cur) <= tol),
              "theorem": "classicalValueFixed_eq_maxDet, maxDetBrute_eq_maxDet (spec); classicalValue_counterexample (mirror of the current code)"})
+    return spec
+
+
+# ------------------------------------------------------------------------------------------------
+# (a') the multiprocessing branch of classical_value: games with a UNIQUE optimal strategy of the enumerated player at a chosen place of
+# the enumeration order.  A game of this size has thousands of near-optimal strategies when it is drawn at random, so an enumeration that
+# loses a block of strategies (the tail `n mod blocksize` of a blocked hand-out, the first index, a block boundary) still returns the right
+# number on random games; here it cannot.
+
+
+def _enumerated(pshape):
+    """(True iff classical_value enumerates ALICE's strategies (transpose branch), answers, questions of the enumerated player)"""
+    ao, bo, ai, bi = pshape
+    swap = ao ** ai < bo ** bi
+    return (swap, ao, ai) if swap else (swap, bo, bi)
+
+
+def _digits(index, base, n):
+    out = []
+    for _ in range(n):
+        index, r = divmod(index, base)
+        out.append(int(r))
+    return out[::-1]
+
+
+def _index(digits, base):
+    k = 0
+    for d in digits:
+        k = k * base + int(d)
+    return k
+
+
+def forced_game(rng, shape, reps, target):
+    """(prob, pred, index): a game in which `target` (one answer per question of the player whose strategies classical_value enumerates,
+    in the base game) is that player's answer function in EVERY optimal pair of deterministic strategies of the r-fold product game, and
+    `index` is the place of the induced product strategy in the enumeration order of classical_value (big-endian digits, first question
+    leading).  Construction: prob > 0 everywhere (dyadic), pred in {1,2,3}/8 plus 1/2 where the enumerated player answers target[q] to its
+    question q.  Then for every (other player's answer, question pair) the entry with the target answer exceeds every entry with another
+    answer (>= 5/8 > 3/8), all entries are positive, so in the product game the entry with the product-target answer exceeds every other
+    one as well; replacing a non-target answer to one question by the target answer strictly increases every inner sum
+    sum_q prob * pred and hence the maximum over the other player's answers: the optimum is attained only at the target."""
+    ao, bo, ai, bi = shape
+    swap, q_out, q_in = _enumerated(tuple(s ** reps for s in shape))
+    base_out, base_in = (ao, ai) if swap else (bo, bi)
+    assert len(target) == base_in and all(0 <= t < base_out for t in target)
+    cells = ai * bi
+    m = 1 << int(np.ceil(np.log2(2 * cells)))
+    prob = ((1 + rng.multinomial(m - cells, np.ones(cells) / cells)) / m).reshape(ai, bi).astype(float)
+    pred = rng.integers(1, 4, size=shape) / 8.0
+    for q, t in enumerate(target):
+        if swap:
+            pred[t, :, q, :] += 0.5
+        else:
+            pred[:, t, :, q] += 0.5
+    prod_digits = [_index(ts, base_out) for ts in
+                   ([[target[q] for q in qs] for qs in itertools.product(range(base_in), repeat=reps)])]
+    return prob, pred, _index(prod_digits, q_out)
+
+
+def _strategy_value(prob, pred, reps, index):
+    """exact value of the product game when the enumerated player uses strategy number `index` and the other best-responds"""
+    ao, bo, ai, bi = pred.shape
+    # dyadic inputs: integers after scaling by 2^20 resp. 2^3 (asserted), int64 arithmetic is exact at these sizes
+    pw1, pv1 = np.rint(prob * 2 ** 20).astype(np.int64), np.rint(pred * 8).astype(np.int64)
+    assert np.array_equal(pw1 / 2 ** 20, prob) and np.array_equal(pv1 / 8, pred) and reps <= 2
+    pw, pv = pw1, pv1
+    for _ in range(reps - 1):
+        pw = np.kron(pw, pw1)
+        # product predicate: answers and questions of the copies are paired, first copy leading
+        pv = np.einsum("abxy,cdzw->acbdxzyw", pv, pv1).reshape(pv.shape[0] * ao, pv.shape[1] * bo, pv.shape[2] * ai, pv.shape[3] * bi)
+    w = pv * pw[None, None, :, :]
+    swap, q_out, q_in = _enumerated(w.shape)
+    if swap:
+        w = w.transpose(1, 0, 3, 2)
+    g = _digits(index, q_out, q_in)
+    score = sum(w[:, g[y], :, y] for y in range(q_in))         # [a, x]
+    return Fraction(int(sum(int(max(score[:, x])) for x in range(score.shape[1]))), (2 ** 20 * 8) ** reps)
+
+
+POOL_SHAPES = [((3, 3, 7, 7), 1), ((3, 3, 2, 2), 2), ((3, 3, 7, 8), 1), ((3, 3, 8, 7), 1), ((4, 3, 6, 7), 1), ((3, 4, 7, 6), 1),
+               ((5, 5, 5, 5), 1), ((6, 6, 4, 4), 1), ((7, 7, 4, 5), 1)]
+
+
+def _boundary_indices(n):
+    """places of the enumeration where a blocked / chunked / off-by-one hand-out of n strategies would lose one"""
+    out = {0, 1, n - 1, n - 2, n // 2, 999, 1000, 1001}
+    for b in (16, 64, 100, 128, 256, 500, 512, 1000, 1024):
+        if b < n:
+            out |= {b - 1, b, n - b, n - b - 1, n - n % b - 1, n - n % b, (n // b // 2) * b, (n // b // 2) * b - 1}
+    return sorted(i for i in out if 0 <= i < n)
+
+
+CLASSICAL_OPS = ("c07_classical_value", "c07_classical_value_fixed", "c07_classical_value_code")
+
+
+def _precompute_oracles(games):
+    """answers of the Lean driver to CLASSICAL_OPS for each game of `games` ([args dict]); the requests are independent, they are
+    spread over several driver processes (threads only wait on the pipes)"""
+    import queue
+    from concurrent.futures import ThreadPoolExecutor
+
+    from ..common import Driver
+
+    jobs = [(i, op) for i in range(len(games)) for op in CLASSICAL_OPS]
+    k = max(1, min(8, len(jobs), (os.cpu_count() or 2) // 2))
+    free = queue.Queue()
+    drivers = [Driver() for _ in range(k)]
+    for d in drivers:
+        free.put(d)
+
+    def work(job):
+        i, op = job
+        d = free.get()
+        try:
+            return d.ask(op, games[i])
+        finally:
+            free.put(d)
+
+    try:
+        with ThreadPoolExecutor(max_workers=k) as ex:
+            answers = list(ex.map(work, jobs))
+    finally:
+        for d in drivers:
+            d.close()
+    out = [{"args": g} for g in games]
+    for (i, op), ans in zip(jobs, answers):
+        out[i][op] = ans
+    return out
+
+
+def make_pool_forced(ctx, shape, reps, where, target=None, index=None):
+    """one forced-optimum game for the multiprocessing branch; `target` (base game) or `index` (reps = 1 only) fixes the optimum"""
+    pshape = tuple(s ** reps for s in shape)
+    swap, q_out, q_in = _enumerated(pshape)
+    n = q_out ** q_in
+    other = (pshape[1] ** pshape[3]) if swap else (pshape[0] ** pshape[2])
+    assert n > 1000 and other >= n, (shape, reps)
+    if target is None:
+        assert reps == 1
+        target = _digits(index, q_out, q_in)
+    prob, pred, idx = forced_game(ctx.rng, shape, reps, target)
+    return {"shape": shape, "reps": reps, "where": where, "target": list(target), "prob": prob, "pred": pred, "index": idx,
+            "enumerated": "alice" if swap else "bob", "n": n}
+
+
+def check_pool_forced(ctx, g, pre=None):
+    shape, reps = g["shape"], g["reps"]
+    ctx.count(f"classical/pool-forced/{g['where']}")
+    ctx.count(f"classical/pool-forced/enumerated={g['enumerated']}/n={g['n']}" + ("/unequal-answers" if shape[0] != shape[1] else ""))
+    spec = check_classical(ctx, g["prob"], g["pred"], reps, "frac", "pool-forced", pre=pre)
+    if spec is not None and _strategy_value(g["prob"], g["pred"], reps, g["index"]) != spec:
+        raise InfraError(f"forced_game: strategy number {g['index']} of the enumerated player does not attain the proved maximum {spec} "
+                         f"(shape {shape}, reps {reps}, target {g['target']})")
+
+
+def pool_forced(ctx, quick):
+    rng = ctx.rng
+    games = []
+
+    def add(shape, reps, where, **kw):
+        games.append(make_pool_forced(ctx, shape, reps, where, **kw))
+
+    # corpus: optimum at the LAST, the FIRST and the MIDDLE strategy of 3^7 = 2187 (not a multiple of any power of 2 or 10) with Bob
+    # enumerated, at the last one with Alice enumerated (transpose branch) and with unequal answer alphabets; the 2-fold repetition of a
+    # (3, 3, 2, 2) game (9^4 = 6561 strategies): last, first, and a seeded one of the other seven product targets
+    add((3, 3, 7, 7), 1, "last", target=[2] * 7)
+    add((3, 3, 7, 7), 1, "first", target=[0] * 7)
+    add((3, 3, 7, 7), 1, "middle", target=[1] * 7)
+    add((3, 3, 7, 8), 1, "last", target=[2] * 7)
+    add((4, 3, 6, 7), 1, "last", target=[2] * 7)
+    add((3, 3, 2, 2), 2, "last", target=[2, 2])
+    add((3, 3, 2, 2), 2, "first", target=[0, 0])
+    mixed = [[2, 1], [1, 2], [2, 0], [0, 2], [1, 1], [1, 0], [0, 1]]
+    for t in ([mixed[int(rng.integers(len(mixed)))]] if quick else mixed):
+        add((3, 3, 2, 2), 2, "mixed", target=t)
+    # seeded: block-boundary places and uniformly random places on seeded shapes
+    shapes = [sh for sh, r in POOL_SHAPES if r == 1 and (not quick or sh[0] == sh[1])]
+    for where, k in ([("boundary", 2), ("random", 1)] if quick else [("boundary", 60), ("random", 40)]):
+        for _ in range(k):
+            shape = shapes[int(rng.integers(len(shapes)))]
+            _, q_out, q_in = _enumerated(shape)
+            n = q_out ** q_in
+            cand = _boundary_indices(n)
+            idx = int(cand[int(rng.integers(len(cand)))]) if where == "boundary" else int(rng.integers(n))
+            add(shape, 1, where, index=idx)
+    pre = _precompute_oracles([_game_args(g["prob"], g["pred"], g["reps"]) for g in games])
+    for g, p in zip(games, pre):
+        check_pool_forced(ctx, g, p)
 
 
 def classical_corpus(ctx):
@@ -1382,6 +1581,8 @@ def run(ctx, model_ok=True):
     # a second, different game of the same shape through the pool branch in the same process: state kept between calls (a worker pool
     # or a cache that still holds the previous game's tensor) shows
     check_classical(ctx, rand_prob(prg, shp[2], shp[3], "01"), prg.integers(0, 8, size=shp) / 8.0, 1, "frac", "pool-second")
+    # games with more than 1000 strategies on BOTH sides whose number is not a multiple of any block size, optimum forced to one place
+    pool_forced(ctx, quick)
     if not quick:
         # multiprocessing-pool branch of classical_value (> 1000 iterations), after a possible repair as well
         rng = ctx.rng
